@@ -243,7 +243,12 @@ def run_one(mod, sh, kind, idx, metered=False):
         sh.violation('exception:RecursionError@%s' % fr)
     except Exception as e:
         fr = lib_frame(e)
-        if fr is None:
+        obj = getattr(e, 'obj', None) if isinstance(e, AttributeError) else None
+        if fr is None and obj is not None and type(obj).__module__.split('.')[0] == 'elftools':
+            # the library handed out an object of another shape than its interface promises
+            sh.violation('wrong-shaped result: %s object lacks %r' % (type(obj).__name__, getattr(e, 'name', '?')),
+                         tb=traceback.format_exc()[-1200:])
+        elif fr is None:
             sh.harness_errors.append({'case': [kind, idx],
                                       'error': traceback.format_exc()[-1500:]})
         else:
@@ -265,7 +270,10 @@ def _worker_job(job):
         reach.reset()
         reach.enable()
     try:
+        dev = os.environ.get('VF_DEV_IDXMOD')       # development aid "m:r": only the cases with idx % m == r
         for idx in range(start, stop):
+            if dev and idx % int(dev.split(':')[0]) != int(dev.split(':')[1]):
+                continue
             run_one(mod, sh, kind, idx)
     finally:
         if reach:
@@ -278,9 +286,10 @@ def _worker_job(job):
 def make_jobs(mod, tier, seed, quirks):
     jobs = []
     col = 0 if tier == 'quick' else 1
+    only_kinds = os.environ.get('VF_DEV_KINDS')          # development aid (never set by a registered command)
     for kind, sizes in mod.KINDS.items():
         n = sizes[col]
-        if n <= 0:
+        if n <= 0 or (only_kinds and kind not in only_kinds.split(',')):
             continue
         chunk = sizes[2] if len(sizes) > 2 and sizes[2] else max(1, -(-n // (NWORKERS * 4)))
         for start in range(0, n, chunk):
